@@ -18,16 +18,24 @@ THEOREMS = [P + t for t in [
 RULE = ("generated ODX documents (1-4 layers incl. inheritance: chains and layers with up to three PARENT-REFs carrying NOT-INHERITED-DIAG-COMMS / "
         "-DOPS lists, later layers re-defining services / DOPs of earlier ones under the same short name; 1-5 services per layer with "
         "distinct or shared constant prefixes given by "
-        "CODED-CONST and/or PHYS-CONST parameters, 1-4 request parameters, VALUE parameters typed by simple DOPs or by STRUCTUREs of static "
+        "CODED-CONST and/or PHYS-CONST parameters, 1-4 request parameters of the kinds CODED-CONST, VALUE, PHYS-CONST, SYSTEM, LENGTH-KEY, RESERVED, "
+        "DYNAMIC (responses also NRC-CONST, MATCHING-REQUEST-PARAM; enumerated family parameter kind x parameter list x attribute), VALUE "
+        "parameters typed by simple DOPs or by STRUCTUREs of static "
         "size, 0-2 positive and 0-1 negative responses, 0-5 COMPARAM-REFs per layer "
         "with or without PROTOCOL-SNREF; the short names of layers, services, parameters, DOPs / STRUCTUREs, units and comparams are the "
         "generator's plain ones or, in half of the documents and in an enumerated family name space x name class, drawn from 13 classes of "
         "legal short names [a-zA-Z0-9_]{1,128}: first character a digit, only digits, python keywords, soft keywords / builtins, attribute "
         "names of list / NamedItemList, leading underscores, mangled / numbered / case twins, one character, 128 characters, prefix chains) "
-        "loaded through the XML parser; every single edit add / delete / "
+        "loaded through the XML parser as one DIAG-LAYER-CONTAINER or (half of the multi-layer documents, and an enumerated family of all 13 "
+        "ordered partitions of three layers) spread over several containers loaded in any order relative to the inheritance direction, "
+        "cross-container references by DOCREF to the container or to the layer; every single edit add / delete / "
         "rename of every service and every applicable attribute edit (byte position, bit length -- incl. the size of the STRUCTURE typing a "
         "parameter --, coded value, semantic, data type, linked DOP / STRUCTURE) of (a sample of) the parameters, observed in the edited layer "
-        "and in every inheriting layer (which must report the edit, or nothing when it does not inherit the edited service); plus structural edits (parameter/response added or removed, DOP changed, two edits at "
+        "and in every inheriting layer (which must report the edit, or nothing when it does not inherit the edited service); every 8th edit "
+        "(all in the enumerated layout family) additionally made in place on a loaded database of the old document followed by "
+        "Database.refresh() -- call histories N, NR, RN, NON, NO: edit, edit + second refresh, refresh + edit, edit-undo-edit, edit-undo -- "
+        "where the database reached must be reported (layer comparison, compare_databases, overview) exactly like a freshly loaded one and "
+        "must not differ from it; plus structural edits (parameter/response added or removed, DOP changed, two edits at "
         "once) for correspondence only; distinct = distinct (old spec, new spec, layer); non-trivial = the two layers differ")
 TRUSTED = ["model lean/OdxVerif/Model/Compare.lean is hand-written; tied to odxtools/cli/compare.py and _print_utils.print_dl_metrics by "
            "comparing the returned dictionaries (canonicalised to short names, sets sorted) and the rendered table rows",
@@ -39,13 +47,17 @@ TRUSTED = ["model lean/OdxVerif/Model/Compare.lean is hand-written; tied to odxt
            "the inheritance rule used by the count / visibility oracle (compare_lib.visible_map: own objects + per PARENT-REF the parent's "
            "objects minus that PARENT-REF's NOT-INHERITED names, highest-priority parent wins, own overrides) and the static size of a "
            "STRUCTURE (compare_lib.dop_bits), both computed from the spec alone",
-           "Rich table rendering (the table is rendered with a 300-column console and parsed back)"]
+           "Rich table rendering (the table is rendered with a 300-column console and parsed back)",
+           "the in-place edit of a loaded database (compare_lib.load_history): the fields of the DiagLayerRaw object of every layer whose XML "
+           "differs are set to what the XML parser yields for the target document (DiagLayer and DiagLayerRaw objects keep their identity), "
+           "then Database.refresh()"]
 ASSUMPTIONS = ["envelope: short names distinct within a layer, every service has a request (guaranteed by the loader); add/delete/rename are "
                "claimed for services whose constant request prefix is not shared with another service of the layer, rename additionally needs a "
                "prefix (each shown necessary by a counterexample theorem); outside it only model/implementation correspondence is checked",
                "compared values: ints and strings (a value whose equality differs from equality of its repr, e.g. 1 == 1.0, is outside the model)"]
 
 VALS = (0x01, 0x10, 0x22, 0x2E, 0x31, 0x3E, 0x7F)
+DOP_KINDS = ("value", "physconst", "system", "lengthkey")   # the parameter kinds that link a DOP (the subclasses of ParameterWithDOP)
 PROTOS = (None, "UDS_CAN", "UDS_DoIP")   # PROTOCOL-SNREF of a COMPARAM-REF (None = element absent)
 
 
@@ -71,6 +83,9 @@ def gen_params(rng, dops, prefix, section, sdops=()):
         nm = f"p{i}"
         if r < .5 and sdops and rng.random() < .3:
             ps.append(P_(nm, "value", dop=rng.choice(sdops)["name"], default=None, sem=rng.choice([None, None, "DATA"])))
+        elif r < .5 and rng.random() < .3:
+            # the other parameter classes that link a DOP (ParameterWithDOP): SYSTEM, LENGTH-KEY
+            ps.append(P_(nm, rng.choice(DOP_KINDS[2:]), dop=rng.choice(dops)["name"], sem=rng.choice([None, None, "DATA"])))
         elif r < .5:
             ps.append(P_(nm, "value", dop=rng.choice(dops)["name"], default=(rng.choice(VALS) if rng.random() < .3 else None),
                          sem=rng.choice([None, None, "DATA"])))
@@ -82,8 +97,10 @@ def gen_params(rng, dops, prefix, section, sdops=()):
             ps.append(P_(nm, "nrc", vals=sorted(rng.sample(VALS, 2)), bl=8))
         elif r < .9 and section != "req":
             ps.append(P_(nm, "matching", val=rng.randint(0, 1), bl=8))
-        else:
+        elif r < .97:
             ps.append(P_(nm, "const", val=rng.choice(VALS), bl=rng.choice([8, 16])))
+        else:
+            ps.append(P_(nm, "dynamic", bl=0))
         if rng.random() < .25:
             ps[-1]["bp"] = len(ps) - 1 + rng.randint(0, 1)
     return ps[:4] if section == "req" else ps
@@ -366,8 +383,10 @@ def seen_as(edit, spec_old, spec_new, obs, lname):
     decided from the specs alone: 'clean' = exactly this edit; 'unseen' = `obs` does not offer the edited service (excluded on
     every path / overridden by another layer's service of the same name) so nothing may be reported; 'mixed' = the edit
     uncovers or hides another layer's service of the same short name (not a single edit from `obs`' point of view)"""
-    vo, vn = L.visible_map(spec_old, obs, "services"), L.visible_map(spec_new, obs, "services")
     kind = edit["kind"]
+    if kind == "self":
+        return "clean"
+    vo, vn = L.visible_map(spec_old, obs, "services"), L.visible_map(spec_new, obs, "services")
     org = lambda v, name: v[name][0] if name in v else None   # noqa
     s = edit.get("service")
     if kind == "add":
@@ -403,25 +422,53 @@ def features_of(edit, dl_new):
     return f
 
 
-def run_case(ctx, pend, fam, spec_old, spec_new, lname, edit, db_old=None, oracle=True, db_new=None):
-    """load both specs, compare layer `lname`; direct oracle + queue the model request"""
+def hist_db(ctx, spec_a, spec_b, schedule, witness):
+    """the database reached by the call history `schedule` (compare_lib.load_history) from spec_a; None when it cannot be had
+    (refresh() raising on the edited database is a failure of the tools to report anything: reported)"""
+    if schedule == "M":
+        dbh, prob = L.load_mutated(spec_a, witness.get("layer"), witness.get("edit") or {})
+    else:
+        dbh, prob = L.load_history(spec_a, spec_b, schedule)
+    if dbh is None:
+        ctx.count(f"history-{prob}")
+        if prob.startswith("foreign:"):
+            ctx.violate("reports-exactly-the-edit", ["history", "refresh-raises"], prob, witness,
+                        f"Database.refresh() raised after the loaded database was edited in place (schedule {schedule})")
+    return dbh
+
+
+def run_case(ctx, pend, fam, spec_old, spec_new, lname, edit, db_old=None, oracle=True, db_new=None, history=None, model=True):
+    """load both specs, compare layer `lname`; direct oracle + queue the model request (model=False: direct oracle only).  history: the new database is not loaded
+    from the new spec but reached by that schedule from a loaded database of the old spec (`edit` then is what the state reached
+    differs from the old spec by: the edit, or {"kind": "self"} for a schedule that ends in the old state)"""
     witness = {"old": spec_old, "new": spec_new, "layer": lname, "edit": edit}
+    spec_t = spec_new
+    if history:
+        witness["history"] = history
+        spec_t = spec_new if L.schedule_target(history) == "new" else spec_old
     try:
         db_old = db_old or L.load(spec_old)
+        if db_new is None and history:
+            db_new = hist_db(ctx, spec_old, spec_new, history, witness)
+            if db_new is None:
+                return None
         db_new = db_new or (db_old if spec_new is spec_old else L.load(spec_new))
         dl_old = next(d for d in db_old.diag_layers if d.short_name == lname)
         dl_new = next(d for d in db_new.diag_layers if d.short_name == lname)
-        line = L.compare_request(dl_new, dl_old)
+        line = L.compare_request(dl_new, dl_old) if model else None
     except Exception as e:  # the edited document is not loadable / not describable: not a case
         ctx.count(f"skipped:{type(e).__name__}")
         return None
     impl = L.run_compare_layers(dl_new, dl_old)
-    ctx.case((json.dumps(spec_old, sort_keys=True), json.dumps(spec_new, sort_keys=True), lname), nontrivial=edit["kind"] != "self")
+    ctx.case((json.dumps(spec_old, sort_keys=True), json.dumps(spec_new, sort_keys=True), lname) + ((history,) if history else ()),
+             nontrivial=edit["kind"] != "self")
+    if history:
+        ctx.histo("history_schedule_x_edit", f"{history}:{edit['kind']}")
     ctx.histo("edit", edit["kind"] + (":" + edit["attr"] + ("(structure)" if edit.get("structure") else "") if edit["kind"] == "attr" else ""))
     ctx.histo("services_in_layer", len(dl_old.services))
     if oracle:
         try:
-            exp, why = expectation(edit, dl_new, dl_old, spec_new, spec_old, lname, ctx)
+            exp, why = expectation(edit, dl_new, dl_old, spec_t, spec_old, lname, ctx)
         except Exception as e:  # noqa
             exp, why = None, f"oracle-error:{type(e).__name__}"
         if exp is None:
@@ -430,10 +477,11 @@ def run_case(ctx, pend, fam, spec_old, spec_new, lname, edit, db_old=None, oracl
             ctx.count("oracle-checked")
             if impl != exp:
                 obs = impl if isinstance(impl, str) else "wrong-report"
-                ctx.violate("reports-exactly-the-edit", features_of(edit, dl_new), obs,
+                ctx.violate("reports-exactly-the-edit", features_of(edit, dl_new) + (["after-in-place-edit"] if history else []), obs,
                             {**witness, "reported": impl, "expected": exp},
                             f"{edit['kind']} of service {edit.get('service')} in layer {lname}: reported {short(impl)}, expected {short(exp)}")
-    pend.items.append((fam, witness, line, impl, "layer"))
+    if model:
+        pend.items.append((fam, witness, line, impl, "layer"))
     ctx.sample({"edit": edit, "layer": lname, "reported": impl}, limit=8)
     return db_new
 
@@ -444,37 +492,46 @@ def short(r):
     return json.dumps({k: ([c[:2] + [[e[:2] + [[x[0] for x in e[2]]] for e in c[2]]] for c in v] if k == "changed" else v) for k, v in r.items() if v})[:300]
 
 
-def run_db_case(ctx, pend, spec_old, spec_new, lname, db_old, db_new, layer_exp):
-    """compare_databases on the two databases; expectation: only layer `lname` (and layers inheriting from it) differ"""
+def run_db_case(ctx, pend, spec_old, spec_new, lname, db_old, db_new, layer_exp, history=None, hist_specs=None, model=True):
+    """compare_databases on the two databases; expectation: only layer `lname` (and layers inheriting from it) differ.
+    history / hist_specs: db_new was reached by that schedule from hist_specs = [spec loaded, the other spec] (default [old, new])"""
+    wit = {"old": spec_old, "new": spec_new, "layer": lname, "edit": {"kind": "db"}}
+    if history:
+        wit.update({"history": history, "history_specs": hist_specs or [spec_old, spec_new]})
     sel = sorted({d.short_name for d in db_old.diag_layers} | {d.short_name for d in db_new.diag_layers})
     impl = L.run_compare_databases(db_new, db_old, sel)
-    try:
-        line = L.comparedb_request(db_new, db_old, sel)
-    except Exception as e:  # noqa
-        ctx.count(f"skipped:{type(e).__name__}")
-        return
-    pend.items.append(("database", {"old": spec_old, "new": spec_new, "layer": lname}, line, impl, "db"))
+    if model:
+        try:
+            line = L.comparedb_request(db_new, db_old, sel)
+        except Exception as e:  # noqa
+            ctx.count(f"skipped:{type(e).__name__}")
+            return
+        pend.items.append(("database", {k: v for k, v in wit.items() if k != "edit"}, line, impl, "db"))
     ctx.count("db-compared")
     if isinstance(impl, str):
-        ctx.violate("reports-exactly-the-edit", ["database", "raises"], impl, {"old": spec_old, "new": spec_new, "layer": lname, "edit": {"kind": "db"}},
-                    "compare_databases raised")
+        ctx.violate("reports-exactly-the-edit", ["database", "raises"], impl, wit, "compare_databases raised")
         return
     if layer_exp is not None:
         empty = {"new": [], "deleted": [], "renamed": [], "changed": []}
         ok = impl["new_layers"] == [] and impl["deleted_layers"] == [] and sorted(impl["layers"]) == sel
         ok = ok and all((v == layer_exp[k]) if k in layer_exp else (v == empty) for k, v in impl["layers"].items())
         if not ok:
-            ctx.violate("reports-exactly-the-edit", ["database"], "wrong-report",
-                        {"old": spec_old, "new": spec_new, "layer": lname, "edit": {"kind": "db"}, "reported": impl, "expected": layer_exp},
-                        "compare_databases does not report exactly the per-layer differences")
+            ctx.violate("reports-exactly-the-edit", ["database"] + (["after-in-place-edit"] if history else []), "wrong-report",
+                        {**wit, "reported": impl, "expected": layer_exp},
+                        "compare_databases does not report exactly the per-layer differences"
+                        + (f" (new database reached by in-place edits, schedule {history})" if history else ""))
 
 
-def metrics_case(ctx, pend, spec, db):
+def metrics_case(ctx, pend, spec, db, history=None, hist_specs=None):
+    """history / hist_specs: `db` was not loaded from `spec` but reached by that schedule from hist_specs = [spec loaded, other spec]"""
+    wit = {"old": spec, "edit": {"kind": "metrics"}}
+    if history:
+        wit.update({"history": history, "history_specs": hist_specs})
     rows = L.metrics_rows(db.diag_layers)
     rows2 = L.metrics_rows(None, via_list_tool_db=db)
     true = [[l.short_name, l.variant_type.value, str(visible(spec, l.short_name, "services")), str(visible(spec, l.short_name, "dops")),
              str(visible(spec, l.short_name, "cps") if l.variant_type.value != "ECU-SHARED-DATA" else 0)] for l in db.diag_layers]
-    ctx.case(("metrics", json.dumps(spec, sort_keys=True)), nontrivial=True)
+    ctx.case(("metrics", json.dumps(spec, sort_keys=True)) + ((history, json.dumps(hist_specs, sort_keys=True)) if history else ()), nontrivial=True)
     ctx.histo("comparams_in_first_layer", true[0][4])
     by_cp = {}
     for l in spec["layers"]:
@@ -485,12 +542,14 @@ def metrics_case(ctx, pend, spec, db):
         if r != true:
             col = "raises" if isinstance(r, str) else ",".join(
                 c for i, c in enumerate(["name", "type", "services", "dops", "comparams"]) if any(len(a) != 5 or a[i] != b[i] for a, b in zip(r, true))) or "rows"
-            ctx.violate("metrics-are-actual-counts", ["metrics", col], r if isinstance(r, str) else "wrong-count",
-                        {"old": spec, "edit": {"kind": "metrics"}, "rendered": r, "expected": true},
-                        f"{tag}: overview rows {r} but the layers actually have {true}")
+            ctx.violate("metrics-are-actual-counts", ["metrics", col] + (["after-in-place-edit"] if history else []),
+                        r if isinstance(r, str) else "wrong-count", {**wit, "rendered": r, "expected": true},
+                        f"{tag}: overview rows {r} but the layers actually have {true}"
+                        + (f" (database reached by in-place edits, schedule {history})" if history else ""))
             break
     try:
-        pend.items.append(("metrics", {"old": spec}, L.metrics_request(db.diag_layers), rows, "metrics"))
+        if not history:
+            pend.items.append(("metrics", {k: v for k, v in wit.items() if k != "edit"}, L.metrics_request(db.diag_layers), rows, "metrics"))
     except Exception as e:  # noqa
         ctx.count(f"skipped:{type(e).__name__}")
 
@@ -565,19 +624,20 @@ def fresh_service(rng, spec, L_, shared, cls=None):
     return svc
 
 
-def all_edits(rng, spec, lname, max_attr, every_class=False):
+def all_edits(rng, spec, lname, max_attr, every_class=False, only_param=None):
     """yield (edit description, new spec) for layer `lname`; every_class: additionally a service of every name class is added,
-    and the services are renamed to a name of every name class (service k takes the classes k, k+n, ...)"""
+    and the services are renamed to a name of every name class (service k takes the classes k, k+n, ...); only_param: just the
+    attribute edits, and all of them, of the parameters of that name"""
     li = next(i for i, l in enumerate(spec["layers"]) if l["name"] == lname)
     L_ = spec["layers"][li]
     n = len(L_["services"])
     # add (fresh prefix, and shared prefix), at a random position
-    for shared, cls in [(False, None), (True, None)] + ([(False, c) for c in L.NAME_CLASSES] if every_class else []):
+    for shared, cls in ([(False, None), (True, None)] + ([(False, c) for c in L.NAME_CLASSES] if every_class else [])) if not only_param else []:
         s2 = copy.deepcopy(spec)
         svc = fresh_service(rng, spec, L_, shared, cls)
         s2["layers"][li]["services"].insert(rng.randint(0, n), svc)
         yield {"kind": "add", "service": svc["name"], "shared": shared}, s2
-    for k in range(n):
+    for k in range(n if not only_param else 0):
         name = L_["services"][k]["name"]
         s2 = copy.deepcopy(spec)
         s2["layers"][li]["services"].pop(k)
@@ -592,6 +652,9 @@ def all_edits(rng, spec, lname, max_attr, every_class=False):
     # the sample always contains some edits of parameters typed by a STRUCTURE (size changed / re-linked), when there are any
     on_struct = [c for c in attr_cases if c[2] in ("bitlen", "dop") and L.is_struct(spec, L.get_param(L_["services"][c[0]], c[1]).get("dop"))][:4]
     attr_cases = on_struct + [c for c in attr_cases if c not in on_struct]
+    if only_param:
+        attr_cases = [c for c in attr_cases if L.get_param(L_["services"][c[0]], c[1])["name"] == only_param]
+        max_attr = len(attr_cases)
     done = 0
     for k, loc, attr in attr_cases:
         if done >= max_attr:
@@ -603,7 +666,7 @@ def all_edits(rng, spec, lname, max_attr, every_class=False):
             continue
         done += 1
         e = {"kind": "attr", "attr": attr, "service": L_["services"][k]["name"], "loc": list(loc), "param": p_old["name"],
-             "rows": expected_rows(spec, p_old, p_new, attr, s2)}
+             "pkind": p_old["kind"], "rows": expected_rows(spec, p_old, p_new, attr, s2)}
         if p_old["kind"] == "value" and (L.is_struct(spec, p_old["dop"]) or L.is_struct(s2, p_new["dop"])):
             e["structure"] = True          # the parameter is typed by a STRUCTURE before and/or after the edit
         yield e, s2
@@ -698,18 +761,28 @@ def run(ctx):
         corpus(ctx, pend)
     except Exception as e:  # noqa
         ctx.violate("reports-exactly-the-edit", ["corpus", "raises"], f"foreign:{type(e).__name__}", {"edit": {"kind": "corpus"}}, "corpus case raised")
-    n_specs = 800 if big else 100
+    n_specs = 400 if big else 88      # (800 before round 7: a history case costs about two fresh ones)
     max_attr = 40 if big else 14
+    hist_every = 2 * HIST_EVERY if big else HIST_EVERY
     names_family(ctx, pend, big)
+    param_kinds_family(ctx, pend, big)
+    history_family(ctx, pend, big)
     for n in range(n_specs):
         spec = gen_spec(rng, big)
         if rng.random() < .5:
             # half of the documents: some / all of the name spaces use other legal short names than the generator's plain ones
             spec = L.rename_spec(spec, rng, draw_naming(rng))
-        explore_spec(ctx, pend, rng, spec, max_attr, 1 if big else 4)
+        # half of the documents with several layers: the layers are spread over several containers, loaded in a random order
+        spec = draw_layout(rng, spec)
+        # every HIST_EVERY-th edit is additionally made in place on a loaded database (a random schedule)
+        explore_spec(ctx, pend, rng, spec, max_attr, 1 if big else 4,
+                     schedule_of=lambda k: rng.choice(L.SCHEDULES) if k % hist_every == hist_every // 2 else None)
         if len(pend.items) > 4000:
             flush(ctx, pend)
     flush(ctx, pend)
+
+
+HIST_EVERY = 8
 
 
 def draw_naming(rng):
@@ -745,9 +818,171 @@ def names_family(ctx, pend, big):
     flush(ctx, pend)
 
 
-def explore_spec(ctx, pend, rng, spec, max_attr, db_every, structural=True, every_class=False):
+def db_expectation(edit, spec, s2, lname, children, cls0, db, db_new):
+    """what compare_databases must report: the edit for the edited layer, what each inheriting layer sees of it (the edit
+    again, or nothing), nothing for all other layers; None = no claim (one of them is outside the envelope)"""
+    try:
+        if cls0 == "mixed":
+            return None
+        lay = {}
+        for c in [lname] + children:
+            cls = cls0 if c == lname else seen_as(edit, spec, s2, c, lname)
+            dl_old = next(d for d in db.diag_layers if d.short_name == c)
+            dl_new = next(d for d in db_new.diag_layers if d.short_name == c)
+            exp = None if cls == "mixed" else expectation(as_seen(edit, cls), dl_new, dl_old, s2, spec, c)[0]
+            if exp is None:
+                return None
+            lay[c] = exp
+        return lay
+    except Exception:  # noqa
+        return None
+
+
+def history_case(ctx, pend, spec, s2, lname, edit, children, db, db_fresh, schedule):
+    """the same single edit, but made on a *loaded* database: a database of the old spec is edited in place and refreshed
+    according to `schedule` (compare_lib.load_history; it ends in the new state, or -- edit undone -- in the old one).  The
+    database reached must be reported exactly like a freshly loaded one: the edit (or nothing) in the edited layer and in every
+    inheriting layer, through compare_databases, in the overview, and no difference to the freshly loaded database."""
+    to_new = L.schedule_target(schedule) == "new"
+    ed = edit if to_new else {"kind": "self"}
+    spec_t = s2 if to_new else spec
+    cls0 = seen_as(ed, spec, spec_t, lname, lname)
+    dbh = run_case(ctx, pend, "history", spec, s2, lname, as_seen(ed, cls0), db, oracle=cls0 != "mixed", history=schedule)
+    if dbh is None:
+        return
+    ctx.histo("history_schedule", schedule)
+    ctx.histo("history_layout", layout_class(spec, lname, children))
+    for c in children:
+        cls = seen_as(ed, spec, spec_t, c, lname)
+        run_case(ctx, pend, "history", spec, s2, c, as_seen(ed, cls), db, oracle=cls != "mixed", db_new=dbh, history=schedule, model=False)
+    run_db_case(ctx, pend, spec, s2, lname, db, dbh, db_expectation(ed, spec, spec_t, lname, children, cls0, db, dbh), history=schedule)
+    metrics_case(ctx, pend, spec_t, dbh, history=schedule, hist_specs=[spec, s2])
+    # indistinguishable from the freshly loaded database of the state reached
+    run_db_case(ctx, pend, spec_t, spec_t, None, db_fresh if to_new else db, dbh, {}, history=schedule, hist_specs=[spec, s2], model=False)
+
+
+def layout_class(spec, lname, children):
+    """where the containers of the layers inheriting from the edited layer are loaded relative to the edited layer's container"""
+    if not spec.get("containers"):
+        return "one-container"
+    at = {n: i for i, c in enumerate(L.containers_of(spec)) for n in c}
+    rel = {("before" if at[c] < at[lname] else "same" if at[c] == at[lname] else "after") for c in children}
+    return "children:" + ("+".join(sorted(rel)) or "none")
+
+
+def draw_layout(rng, spec):
+    """how the layers are distributed over DIAG-LAYER-CONTAINERs (ODX-D files) and in which order these are loaded: with p=.5 a
+    random ordered partition of the layers (so a layer's container may come before or after its parents' containers)"""
+    names = [l["name"] for l in spec["layers"]]
+    if len(names) < 2 or rng.random() < .5:
+        return spec
+    rng.shuffle(names)
+    conts = [[names[0]]]
+    for n in names[1:]:
+        if rng.random() < .6:
+            conts.append([n])
+        else:
+            conts[-1].append(n)
+    spec["containers"] = conts
+    spec["docref"] = rng.choice(["CONTAINER", "LAYER"])
+    return spec
+
+
+def ordered_partitions(xs):
+    """all ordered partitions of a list into non-empty blocks (3 elements: 13)"""
+    if not xs:
+        yield []
+        return
+    x, rest = xs[0], xs[1:]
+    for part in ordered_partitions(rest):
+        for i in range(len(part)):
+            yield part[:i] + [[x] + part[i]] + part[i + 1:]
+        for i in range(len(part) + 1):
+            yield part[:i] + [[x]] + part[i:]
+
+
+def history_family(ctx, pend, big):
+    """enumerated small scope: container layout x call history.  Three-layer documents (a chain FG <- BV <- EV and layers with
+    several PARENT-REFs ESD, FG <- BV <- EV) under *every* ordered partition of their layers into containers (13 for three
+    layers: every loading order of the containers relative to the inheritance direction, each block one ODX-D file), both DOCREF
+    styles; every add / delete / rename and a sample of the attribute edits of every layer is made on a loaded database, the
+    schedules N, NR, RN, NON, NO rotating over the edits and layouts (thorough: a third shape FG <- BV <- EV with several PARENT-REFs,
+    all 13 layouts for every shape, 6 attribute edits), see history_case."""
+    n = 0
+    for shape in ("fg+bv+ev", "esd+fg+bv*") + (("fg+bv+ev*",) if big else ()):
+        for rep in range(1):
+            rng = ctx.sub_rng("history", shape, rep)
+            base = gen_spec(rng, big, shape=shape, nsvc_first=2, distinct=True)
+            for li, part in enumerate(ordered_partitions([l["name"] for l in base["layers"]])):
+                if not big and shape != "fg+bv+ev" and len(part) == 2:
+                    continue        # quick: the second shape only in one container and in the six orders of three containers
+                spec = copy.deepcopy(base)
+                if len(part) > 1:
+                    spec["containers"] = part
+                    spec["docref"] = ("CONTAINER", "LAYER")[(li + rep) % 2]
+                n += 1
+                ctx.histo("history_family", f"{shape}:{len(part)}-containers")
+                explore_spec(ctx, pend, ctx.sub_rng("history", shape, rep, "edits"), spec, 6 if big else 2, 1000, structural=False,
+                             schedule_of=lambda k, li=li: L.SCHEDULES[(k + li) % len(L.SCHEDULES)])
+    flush(ctx, pend)
+
+
+PARAM_KINDS = {"req": ("const", "value", "value+default", "value:structure", "physconst", "system", "lengthkey", "reserved", "dynamic"),
+               "pos": ("const", "value", "value+default", "value:structure", "physconst", "system", "lengthkey", "reserved", "dynamic", "matching"),
+               "neg": ("const", "value", "physconst", "system", "lengthkey", "reserved", "nrc", "matching")}
+
+
+def param_kinds_family(ctx, pend, big):
+    """enumerated small scope: parameter kind x parameter list x attribute.  For every kind of parameter the XML builder knows
+    (every subclass of Parameter but the TABLE-* ones; among them all four that link a DOP: VALUE, PHYS-CONST, SYSTEM,
+    LENGTH-KEY) in a request, a positive and a negative response, first / middle / last in its list: *every* applicable
+    attribute edit (compare_lib.ATTR_EDITS) of that parameter, also through compare_databases."""
+    for sec, kinds in PARAM_KINDS.items():
+        for kind in kinds:
+            for rep in range(3 if big else 1):
+                rng = ctx.sub_rng("param-kinds", sec, kind, rep)
+                spec = gen_spec(rng, big, shape="bv" if rep == 0 else "bv+ev", nsvc_first=2, distinct=True)
+                if kind == "value:structure" and not spec["sdops"]:
+                    spec["sdops"] = [gen_struct(rng, "r0", spec["dops"])]
+                    spec["layers"][0]["own_sdops"] = ["r0"]
+                svc = spec["layers"][0]["services"][rng.randrange(2)]
+                if sec == "req":
+                    ps = svc["req"]
+                else:
+                    if not svc[sec]:
+                        svc[sec].append([P_("c0", val=0x7F if sec == "neg" else 0x40)])
+                    ps = svc[sec][0]
+                dop = rng.choice(spec["dops"])["name"]
+                k0 = kind.split("+")[0].split(":")[0]
+                new = P_("pk", k0, sem=rng.choice([None, "DATA"]))
+                if kind == "const":
+                    new.update(val=rng.choice(VALS), bl=rng.choice([8, 16]))
+                elif kind == "nrc":
+                    new.update(vals=sorted(rng.sample(VALS, 2)))
+                elif kind == "matching":
+                    new.update(val=0)
+                elif kind == "reserved":
+                    new.update(bl=rng.choice([4, 8, 16]))
+                elif kind == "value:structure":
+                    new.update(dop=spec["sdops"][0]["name"], default=None)
+                elif k0 in DOP_KINDS:
+                    new.update(dop=dop)
+                    if k0 == "value":
+                        new["default"] = rng.choice(VALS) if kind == "value+default" else None
+                    if k0 == "physconst":
+                        new["val"] = rng.choice(VALS)
+                # behind the leading constant (which identifies the service), in the middle or at the end
+                ps.insert(rng.randint(1, len(ps)) if ps else 0, new)
+                ctx.histo("param_kinds_family", f"{sec}:{kind}")
+                explore_spec(ctx, pend, rng, spec, 0, 1, structural=False, only_param="pk")
+    flush(ctx, pend)
+
+
+def explore_spec(ctx, pend, rng, spec, max_attr, db_every, structural=True, every_class=False, schedule_of=None, only_param=None):
     """one document: overview, self comparison, all single edits of every layer (observed in the layer, in the inheriting layers and,
-    every `db_every`-th, through compare_databases), structural edits"""
+    every `db_every`-th, through compare_databases), structural edits.  schedule_of: edit number -> schedule | None: the edit is
+    additionally made in place on a loaded database (history_case); only_param: instead of add / delete / rename and a sample of the
+    attribute edits, every attribute edit of the parameters of that name"""
     big = ctx.tier == "thorough"
     try:
         db = L.load(spec)
@@ -772,11 +1007,13 @@ def explore_spec(ctx, pend, rng, spec, max_attr, db_every, structural=True, ever
         leads = {("none" if x is None else "coded-const" if isinstance(x, int) else "phys-const") for x in map(lead_of, L_["services"])}
         ctx.histo("request_ids_of_layer", "+".join(sorted(leads)))
         children = [x["name"] for x in spec["layers"] if reaches(spec["layers"], x, lname)]
-        for k, (edit, s2) in enumerate(all_edits(rng, spec, lname, max_attr, every_class)):
+        for k, (edit, s2) in enumerate(all_edits(rng, spec, lname, max_attr, every_class, only_param)):
             cls0 = seen_as(edit, spec, s2, lname, lname)
             ctx.histo("edit_seen_in_own_layer", cls0)
             if edit.get("service") is not None:
                 ctx.histo("name_class_of_edited_service", L.name_class_of(edit["service"]))
+            if edit["kind"] == "attr":
+                ctx.histo("attr_edit_x_parameter_kind", f"{edit['attr']}:{edit.get('pkind')}")
             if edit["kind"] == "rename":
                 ctx.histo("rename_name_classes", f"{L.name_class_of(edit['service'])}->{L.name_class_of(edit['new_name'])}")
             db_new = run_case(ctx, pend, edit["kind"], spec, s2, lname, as_seen(edit, cls0), db, oracle=cls0 != "mixed")
@@ -788,25 +1025,15 @@ def explore_spec(ctx, pend, rng, spec, max_attr, db_every, structural=True, ever
                 ctx.histo("edit_seen_in_inheriting_layer", cls)
                 run_case(ctx, pend, "inherited", spec, s2, c, as_seen(edit, cls), db, oracle=cls != "mixed", db_new=db_new)
             if k % db_every == 0 or big:
-                # what compare_databases must report: the edit for the edited layer, what each inheriting layer sees of it (the
-                # edit again, or nothing), nothing for all other layers; no claim when one of them is outside the envelope
-                lay = None
-                try:
-                    if cls0 != "mixed":
-                        lay = {}
-                        for c in [lname] + children:
-                            cls = cls0 if c == lname else seen_as(edit, spec, s2, c, lname)
-                            dl_old = next(d for d in db.diag_layers if d.short_name == c)
-                            dl_new = next(d for d in db_new.diag_layers if d.short_name == c)
-                            exp = None if cls == "mixed" else expectation(as_seen(edit, cls), dl_new, dl_old, s2, spec, c)[0]
-                            if exp is None:
-                                lay = None
-                                break
-                            lay[c] = exp
-                except Exception:  # noqa
-                    lay = None
+                lay = db_expectation(edit, spec, s2, lname, children, cls0, db, db_new)
                 ctx.count("db-oracle-checked" if lay is not None else "db-correspondence-only")
                 run_db_case(ctx, pend, spec, s2, lname, db, db_new, lay)
+            sched = schedule_of(k) if schedule_of else None
+            if sched:
+                history_case(ctx, pend, spec, s2, lname, edit, children, db, db_new, sched)
+            if (sched or only_param) and edit["kind"] == "attr" and edit["attr"] == "bitlen" and edit.get("pkind") in ("const", "nrc", "reserved"):
+                # schedule "M": the bit length is assigned on the objects of the loaded database (no re-parsing), then refresh()
+                history_case(ctx, pend, spec, s2, lname, edit, children, db, db_new, "M")
         if structural:
             for edit, s2 in structural_edits(rng, spec, lname):
                 db_new = run_case(ctx, pend, "structural", spec, s2, lname, edit, db, oracle=False)
@@ -821,13 +1048,19 @@ def replay(ctx, data):
     sub = type(ctx)(ctx.pid, ctx.tier, ctx.seed)
     pend = Pending()
     kind = w.get("edit", {}).get("kind")
+    hist = w.get("history")
+    hs = w.get("history_specs") or [w.get("old"), w.get("new")]
     if kind == "metrics":
-        metrics_case(sub, pend, w["old"], L.load(w["old"]))
+        db = hist_db(sub, hs[0], hs[1], hist, w) if hist else L.load(w["old"])
+        if db is not None:
+            metrics_case(sub, pend, w["old"], db, history=hist, hist_specs=hs if hist else None)
     elif kind == "db":
-        db_old, db_new = L.load(w["old"]), L.load(w["new"])
-        run_db_case(sub, pend, w["old"], w["new"], w.get("layer"), db_old, db_new, w.get("expected"))
+        db_old = L.load(w["old"])
+        db_new = hist_db(sub, hs[0], hs[1], hist, w) if hist else L.load(w["new"])
+        if db_new is not None:
+            run_db_case(sub, pend, w["old"], w["new"], w.get("layer"), db_old, db_new, w.get("expected"), history=hist, hist_specs=hs if hist else None)
     elif kind == "corpus":
         corpus(sub, pend)
     else:
-        run_case(sub, pend, "replay", w["old"], w["new"], w["layer"], w["edit"])
+        run_case(sub, pend, "replay", w["old"], w["new"], w["layer"], w["edit"], history=hist)
     return not sub.violations
